@@ -510,6 +510,8 @@ static sim_sched_cfg g_cfg;
 static uint64_t g_rng;
 static sim_sched_stats g_st;
 static uint64_t g_progress;
+static uint64_t consec;
+static int consec_task = -1;
 #define MAXDEC (1u << 16)
 static uint64_t g_dec_step[MAXDEC];  // encoded: (task << 48) | local step of that task
 static int g_dec_task[MAXDEC];
@@ -641,9 +643,33 @@ static void yield_point(int kind, uint64_t site, int window) {
   T[self].local++;
   trace_mix(((uint64_t)self << 8) | (uint64_t)kind, site);
   if (kind != K_BLOCKED) g_progress++;
+  // starvation guard: a task that spins on a plain atomic (not a wrapped primitive) while the task it waits for is
+  // parked would spin forever under a priority or serial schedule; after many consecutive yield points of one task the
+  // next ready task gets a turn
+  if (consec_task != self) {
+    consec_task = self;
+    consec = 0;
+  }
+  consec++;
+  const int starving = consec > 20000 && g_cfg.policy != SIM_POL_SERIAL && count_ready_except(self) > 0;
   if (g_st.steps > g_cfg.max_steps || g_st.switches > g_cfg.max_switches) {
     g_st.budget_exceeded = 1;
+    if (starving) {
+      consec = 0;
+      int nx = pick_round_robin(self);
+      if (nx >= 0) do_switch(self, nx);
+      return;
+    }
     if (kind != K_BLOCKED) return;  // run on serially
+  }
+  if (starving && g_cfg.policy != SIM_POL_RANDOM) {
+    consec = 0;
+    if (g_cfg.policy == SIM_POL_PCT) T[self].prio = 0;
+    int nx = pick_round_robin(self);
+    if (nx >= 0) {
+      do_switch(self, nx);
+      return;
+    }
   }
   int next = -1;
   switch (g_cfg.policy) {
@@ -699,6 +725,8 @@ void sim_sched_begin(int ntasks, const sim_sched_cfg* cfg) {
   g_replay_pos = 0;
   g_serial_pos = 0;
   g_progress = 0;
+  consec = 0;
+  consec_task = -1;
   for (int i = 0; i < ntasks; ++i) T[i].state = TS_READY;
   if (cfg->policy == SIM_POL_PCT) {
     // random distinct priorities above pct_depth
